@@ -10,6 +10,11 @@ that were removed from a container and may be re-inserted anywhere.  After EVERY
 rejected one) the adaptor reads, first, `container.identifiers` of every container and, then, the
 identifiers carried by the objects that are in it.
 
+Round 2 additions: calls the container has to refuse (removePoint / remove<Kind> with an object that is not in it,
+the strangers being real Point / Contour / ... objects the history produced: replaced by reverse(), removed, owned by
+a sibling or by another container; anchor / guideline dicts with an identifier and an invalid colour), and re-opened
+fonts that are left unread so that the next guideline call is the first thing that touches fontinfo.plist.
+
 Identifiers: the model uses naturals; 0..25 map to a ten-letter string ("AAAAAAAAAA", ...), others
 to a ten-digit decimal.  `makeRandomIdentifier`'s randomness (`random.choice` inside
 defcon.tools.identifiers) is replaced by a scripted source, so that the candidates are model inputs
@@ -25,13 +30,22 @@ from sexp import Atom, opt
 MODEL = "ident"
 SHRINKABLE = True
 RULE = ("op sequences over 3 glyphs (in a font, or stand-alone) + font guidelines + a limbo of removed objects; "
-        "identifiers drawn from a pool of 6 on a random subset of objects (high collision rate); 53 op kinds: "
+        "identifiers drawn from a pool of 6 on a random subset of objects (high collision rate); 60 op kinds: "
         "insert/re-insert/remove/clear of contours, components, anchors, guidelines; point insert/remove; "
         "Contour.clear/reverse/removeSegment/split/setStartPoint; identifier setters and generateIdentifier* with "
         "scripted candidates; insertions during which an observer of the container's *WillBeAdded notification gives "
         "the incoming object its identifier; pen drawing with/without skipConflictingIdentifiers; decompose (nested); "
         "copyDataFromGlyph; Layer.insertGlyph; (de)serialisation; external edit + reloadGlyphs; reopen (lazy "
-        "loading); plus every point-type pattern up to length 4 (sampled: 5) x every point-list edit; plus the "
+        "loading of contours; of the font's guidelines: the re-opened font is left unread, so that the next guideline "
+        "operation is the first thing that touches fontinfo.plist); calls the container has to refuse: removePoint / "
+        "remove<Kind> with an object that is not in it (a Point object replaced by reverse() or removed before, a "
+        "point of a sibling contour / another glyph / a detached contour, a free-standing Point carrying a registered "
+        "identifier, a detached object, an object of another container), anchor / guideline dicts with an identifier "
+        "AND an invalid colour through insert / append / instantiate / the anchors / guidelines setters; "
+        "plus every point-type pattern up to length 4 (sampled: 5) x every point-list edit; plus directed families "
+        "(stale point after each point-list edit, strangers carrying an identifier in use, first guideline call on an "
+        "unread font, calls on glyphs whose contours are still shallow loaded - lazily loaded contours are observed as "
+        "the records they are instead of being deepened after every operation); plus the "
         "corpus of regression/witness histories; non-trivial = at least one successful registry-changing op AND at "
         "least one rejected duplicate or generated identifier; distinct = distinct op lists")
 ASSUMPTIONS = [
@@ -48,6 +62,14 @@ ASSUMPTIONS = [
     "GLIF files written behind the font's back for reload/reopen are well formed with unique identifiers "
     "(fontTools.glifLib refuses others before defcon sees them)",
     "python asserts enabled (no -O): they are defcon's rejection mechanism",
+    "Font.instantiateGuideline(dict) is not the FIRST call on a re-opened, still unread font (the harness reads the "
+    "font's guidelines first): that call is finding F70, witnessed by a scripted scenario on the real code",
+    "while a re-opened font is unread its guidelines are not observed (reading them is what loads them): the "
+    "observation reports what the harness wrote to fontinfo.plist, the real registry and guidelines are compared "
+    "from the first guideline call on; Font.appendGuideline is not used on an unread font (it computes the index "
+    "before the lazy read and inserts at 0: an ordering matter, not C10's)",
+    "while a glyph's contours are shallow loaded the contours and the identifiers they carry are read off the shallow "
+    "records (Glyph._shallowLoadedContours, a private attribute: every public way to look at contours deepens them)",
     "Contour.reverse is exercised on contours fontTools' PointToSegmentPen can draw before and after the reversal "
     "(reverse reads Contour.clockwise twice; on other contours that raises PenError or not depending on the cached "
     "area representation, which is C03's subject); the probe uses fontTools itself",
@@ -66,6 +88,11 @@ FONT = 3           # container number of the font (guidelines only)
 MISSING = 9        # component base that is not in the layer
 LIMBO_CAP = 4
 POOL = [0, 1, 2, 3, 4, 5]
+STALE_CAP = 12
+# values defcon.objects.color.Color refuses with ValueError (0-255 components, a missing / extra component, a
+# negative component)
+BAD_COLORS = ["1,0,0,255", (255, 0, 0, 255), "1,0,0", (0, 0, -1, 1), "1,0,0,1,1", "0.5,2,0,1"]
+REFUSED = ("rmAbsentPoint", "rmAbsent", "rmForeign", "insAnchorBad", "insGuideBad")
 
 
 def id2s(n):
@@ -199,7 +226,47 @@ class _Tagger(object):
         notification.data["object"].identifier = v
 
 
+class _Collector(object):
+    """observer of a container's `*WillBeDeleted` notification: the objects a call removed, in removal order"""
+
+    def __init__(self):
+        self.objs = []
+
+    def cb(self, notification):
+        self.objs.append(notification.data["object"])
+
+
+def gen_refused(rng):
+    """calls the container has to refuse without touching anything (the last two: composites cut short)"""
+    t = rng.randrange(NGLYPH)
+    tg = rng.choice([0, 1, 2, FONT, FONT])
+    R = lambda: rng.randrange(12)
+    r = rng.random()
+    if r < 0.30:
+        # [.., how, k, ident]: which stranger (0 stale, 1 sibling contour, 2 other glyph, 3 detached contour,
+        # 4 free-standing Point carrying `ident`)
+        return ["rmAbsentPoint", t, R(), rng.randrange(5), R(), rng.choice(POOL)]
+    if r < 0.42:
+        kind = rng.randrange(4)
+        return ["rmAbsent", kind, rng.choice([0, 1, 2, FONT]) if kind == 3 else t, R()]
+    if r < 0.55:
+        kind = rng.randrange(4)
+        a, b = rng.sample([0, 1, 2, FONT] if kind == 3 else [0, 1, 2], 2)
+        return ["rmForeign", kind, a, b, R()]
+    if r < 0.72:
+        return ["insAnchorBad", t, R(), _pid(rng, 0.15), rng.randrange(3), rng.randrange(len(BAD_COLORS))]
+    if r < 0.86:
+        return ["insGuideBad", tg, R(), _pid(rng, 0.15), rng.randrange(3), rng.randrange(len(BAD_COLORS))]
+    vs = [_pid(rng, 0.4) for _ in range(rng.randint(0, 2))]
+    tail = [_pid(rng, 0.4) for _ in range(rng.randint(0, 1))]
+    if r < 0.93:
+        return ["setAnchorsBad", t, vs, _pid(rng, 0.15), tail, rng.randrange(len(BAD_COLORS))]
+    return ["setGuidesBad", tg, vs, _pid(rng, 0.15), tail, rng.randrange(len(BAD_COLORS))]
+
+
 def gen_op(rng, standalone, fresh, can_disk):
+    if rng.random() < 0.07:
+        return gen_refused(rng)
     r = rng.random()
     if not standalone and r < 0.04:
         return gen_tagged(rng)
@@ -322,7 +389,8 @@ def gen_op(rng, standalone, fresh, can_disk):
         fg = rng.sample(POOL, rng.randint(0, 2))
         return ["reopen", [gen_unique_data(rng, i) for i in range(NGLYPH)],
                 [i if rng.random() < 0.6 else None for i in fg],
-                [rng.randrange(NGLYPH), rng.choice(POOL)] if rng.random() < 0.7 else None]
+                [rng.randrange(NGLYPH), rng.choice(POOL)] if rng.random() < 0.7 else None,
+                rng.random() < 0.5]
     return ["rmContour", t, R()]
 
 
@@ -378,11 +446,220 @@ def gen_shape_cases(rng, tier):
                        standalone=rng.random() < 0.3)
 
 
+def gen_stale_point_cases(rng, tier):
+    """a Point object taken from a contour, then an operation that edits the point list (reverse() replaces every
+    point by a new one carrying the same identifier), then removePoint with the old object, then an attempt to
+    hand the identifier to somebody else"""
+    n = 60 if tier == "quick" else 600
+    good = [[2, 2, 2], [2, 2, 2, 2], [1, 2, 2], [3, 2, 0, 0], [2, 0, 0, 3, 0, 0, 3], [1, 0, 0, 3, 2], [0, 0, 3, 2, 2]]
+    for _ in range(n):
+        t = rng.randrange(NGLYPH)
+        ids = list(POOL)
+        rng.shuffle(ids)
+        ops = []
+        for ci in range(rng.randint(1, 2)):
+            pts = [[ty, ids.pop() if ids and rng.random() < 0.7 else None] for ty in rng.choice(good)]
+            ops.append(["insContour", t, ci, ids.pop() if ids and rng.random() < 0.4 else None, pts])
+        edit = rng.choice([["reverse", t, 0], ["reverse", t, 0], ["rmPoint", t, 0, rng.randrange(4)],
+                           ["rmSegment", t, 0, rng.randrange(3), rng.random() < 0.4], ["split", t, 0, rng.randrange(3)],
+                           ["clearContour", t, 0], ["setStart", t, 0, rng.randrange(3)], ["rmContour", t, 0]])
+        ops.append(edit)
+        for _ in range(rng.randint(1, 2)):
+            ops.append(["rmAbsentPoint", t, rng.randrange(2), rng.choice([0, 0, 0, 1, 3, 4]), rng.randrange(12),
+                        rng.choice(POOL)])
+        follow = rng.choice(POOL)
+        ops.append(rng.choice([["insAnchor", t, 0, follow, rng.random() < 0.5], ["insGuide", t, 0, follow, True],
+                               ["insPoint", t, 0, 0, 2, follow], ["insComp", t, 0, MISSING, follow],
+                               ["genContourId", t, 0, [follow, 777]]]))
+        ops.append(["rmContour", t, 0])
+        yield dict(ops=ops, standalone=rng.random() < 0.3)
+
+
+def gen_stranger_cases(rng, tier):
+    """an identifier in use in a container is also carried by an object that is NOT in it (a detached one that
+    used to be there, or one of another container: identifiers are only unique per container); that stranger is
+    handed to the container's remove method, then somebody asks for the identifier"""
+    n = 100 if tier == "quick" else 1000
+    for _ in range(n):
+        kind = rng.randrange(4)
+        conts = [0, 1, 2, FONT, FONT] if kind == 3 else [0, 1, 2]
+        t = rng.choice(conts)
+        x = rng.choice(POOL)
+
+        def ins(cont, k2, ident):
+            if cont == FONT:
+                k2 = 3
+            if k2 == 0:
+                pts = [[2, None], [2, None], [2, None]]
+                if ident is not None and rng.random() < 0.5:
+                    pts[rng.randrange(3)][1] = ident
+                    return ["insContour", cont, 0, None, pts]
+                return ["insContour", cont, 0, ident, pts]
+            if k2 == 1:
+                return ["insComp", cont, 0, MISSING, ident]
+            if k2 == 2:
+                return ["insAnchor", cont, 0, ident, rng.random() < 0.5]
+            return ["insGuide", cont, 0, ident, rng.random() < 0.5]
+        ops = []
+        for _ in range(rng.randint(0, 2)):
+            ops.append(ins(rng.choice(conts), rng.randrange(4), _pid(rng, 0.5)))
+        if rng.random() < 0.5:
+            # the stranger used to be in the container
+            ops.append(ins(t, kind, x))
+            ops.append([["rmContour", "rmComp", "rmAnchor", "rmGuide"][kind], t, 0])
+            ops.append(ins(t, rng.randrange(4), x))
+            ops.append(["rmAbsent", kind, t, rng.randrange(4)])
+        else:
+            src = rng.choice([c for c in sorted(set(conts)) if c != t])
+            ops.append(ins(src, kind, x))
+            ops.append(ins(t, rng.randrange(4), x))
+            ops.append(["rmForeign", kind, t, src, rng.randrange(4)])
+        ops.append(ins(t, rng.randrange(4), x))               # must be rejected: x is still in use
+        ops.append(rng.choice([["clearGuides", t], ["rmGuide", t, 0], ["roundtrip", rng.randrange(NGLYPH)], ["fontRoundtrip"]]))
+        yield dict(ops=ops, standalone=rng.random() < 0.3)
+
+
+def gen_shallow_cases(rng, tier):
+    """a UFO is opened: the glyphs hold their contours in the lazily loaded (shallow) form until something looks at
+    them.  Histories of calls that do NOT look at contours (anchors, guidelines, components, (de)serialisation,
+    drawing into / from, copying, reloading), with identifiers that collide with those of the shallow contours and
+    points; then calls that deepen them"""
+    n = 80 if tier == "quick" else 800
+    for _ in range(n):
+        while True:
+            datas = [gen_unique_data(rng, i) for i in range(NGLYPH)]
+            if any(pid is not None for d in datas for c in d["contours"] for pid in [c[0]] + [q[1] for q in c[1]]):
+                break
+        stored = [sorted(_ids_of_data_raw(d)) for d in datas]
+        ops = [["reopen", datas, [i if rng.random() < 0.6 else None for i in rng.sample(POOL, rng.randint(0, 2))],
+                None, rng.random() < 0.5]]
+        for _ in range(rng.randint(2, 6)):
+            t = rng.randrange(NGLYPH)
+
+            def ident():
+                if stored[t] and rng.random() < 0.6:
+                    return rng.choice(stored[t])
+                return _pid(rng, 0.2)
+            r = rng.random()
+            if r < 0.14:
+                ops.append(["insAnchor", t, rng.randrange(4), ident(), rng.random() < 0.5])
+            elif r < 0.24:
+                ops.append(["insGuide", t, rng.randrange(4), ident(), rng.random() < 0.5])
+            elif r < 0.32:
+                ops.append(["insComp", t, rng.randrange(4), rng.choice([b for b in range(t + 1, NGLYPH)] + [MISSING]), ident()])
+            elif r < 0.38:
+                ops.append(["setAnchors", t, [ident() for _ in range(rng.randint(0, 3))]])
+            elif r < 0.44:
+                ops.append(["setGuides", t, [ident() for _ in range(rng.randint(0, 3))]])
+            elif r < 0.56:
+                ops.append(["roundtrip", t])
+            elif r < 0.66 and t < NGLYPH - 1:
+                ops.append(["deserializeFrom", t, rng.randrange(t + 1, NGLYPH)])
+            elif r < 0.72 and t < NGLYPH - 1:
+                ops.append(["drawFrom", t, rng.randrange(t + 1, NGLYPH), rng.random() < 0.5])
+            elif r < 0.77 and t < NGLYPH - 1:
+                ops.append(["copyFrom", t, rng.randrange(t + 1, NGLYPH)])
+            elif r < 0.80 and t < NGLYPH - 1:
+                ops.append(["insertGlyph", t, rng.randrange(t + 1, NGLYPH)])
+            elif r < 0.84:
+                ops.append(["genAnchorId", t, rng.randrange(4), [ident() or 0, ident() or 1, 901]])
+            elif r < 0.88:
+                ops.append(["setCompId", t, rng.randrange(4), ident()])
+            elif r < 0.91:
+                ops.append(["decompose", t, rng.randrange(4)])
+            elif r < 0.94:
+                ops.append(["insAnchorBad", t, rng.randrange(4), ident(), rng.randrange(3), rng.randrange(len(BAD_COLORS))])
+            elif r < 0.97:
+                ops.append(["reload", t, gen_unique_data(rng, t)])
+            else:
+                ops.append(["draw", t, [gen_contour(rng)], [], rng.random() < 0.4])
+        for _ in range(rng.randint(1, 2)):
+            t = rng.randrange(NGLYPH)
+            ops.append(rng.choice([["rmContour", t, rng.randrange(4)], ["reverse", t, rng.randrange(4)],
+                                   ["insContour", t, rng.randrange(4)] + gen_contour(rng),
+                                   ["genPointId", t, rng.randrange(4), rng.randrange(4), [rng.choice(POOL), 902]],
+                                   ["clearGlyph", t]]))
+        yield dict(ops=ops, standalone=False)
+
+
+def _ids_of_data_raw(d):
+    res = set()
+    for cid, pts in d["contours"]:
+        res.add(cid)
+        res.update(q[1] for q in pts)
+    res.update(c[1] for c in d["comps"])
+    res.update(d["anchors"])
+    res.update(d["guides"])
+    res.discard(None)
+    return res
+
+
+def gen_unread_font_cases(rng, tier):
+    """a UFO with font guidelines is opened and the FIRST thing done to the font is a guideline call (insertion
+    as dict or object, re-insertion, assignment, clearing, removal, setters ...), with a high rate of identifiers
+    that collide with those stored in fontinfo.plist"""
+    n = 80 if tier == "quick" else 800
+    for _ in range(n):
+        ops = []
+        for _ in range(rng.randint(0, 2)):
+            ops.append(["insGuide", rng.choice([0, FONT, FONT]), rng.randrange(4), _pid(rng, 0.3), rng.random() < 0.5])
+        if rng.random() < 0.5:
+            ops.append(["rmGuide", FONT, rng.randrange(4)])          # a detached guideline for reinsGuide
+        fg = [i if rng.random() < 0.75 else None for i in rng.sample(POOL, rng.randint(1, 3))]
+        stored = [i for i in fg if i is not None]
+        ops.append(["reopen", [gen_unique_data(rng, i, with_comps=False) if rng.random() < 0.3 else
+                               dict(contours=[], comps=[], anchors=[], guides=[]) for i in range(NGLYPH)],
+                    fg, None, True])
+        for _ in range(rng.randint(0, 1)):
+            # calls that do not touch the font: it stays unread
+            ops.append(["insAnchor", rng.randrange(NGLYPH), 0, _pid(rng, 0.5), rng.random() < 0.5])
+
+        def ident():
+            r = rng.random()
+            if stored and r < 0.6:
+                return rng.choice(stored)
+            return _pid(rng, 0.2)
+        r = rng.random()
+        if r < 0.45:
+            first = ["insGuide", FONT, rng.randrange(6), ident(), rng.random() < 0.7]
+        elif r < 0.55:
+            first = ["reinsGuide", FONT, rng.randrange(6), rng.randrange(4)]
+        elif r < 0.70:
+            first = ["setGuides", FONT, [ident() for _ in range(rng.randint(0, 3))]]
+        elif r < 0.76:
+            first = ["clearGuides", FONT]
+        elif r < 0.82:
+            first = ["rmGuide", FONT, rng.randrange(4)]
+        elif r < 0.87:
+            first = ["setGuideId", FONT, rng.randrange(4), ident()]
+        elif r < 0.91:
+            first = ["genGuideId", FONT, rng.randrange(4), [ident() or 0, 555]]
+        elif r < 0.94:
+            first = ["insGuideBad", FONT, rng.randrange(6), ident(), rng.randrange(3), rng.randrange(len(BAD_COLORS))]
+        elif r < 0.97:
+            first = ["setGuidesBad", FONT, [ident() for _ in range(rng.randint(0, 2))], ident(), [],
+                     rng.randrange(len(BAD_COLORS))]
+        else:
+            first = ["tagged", ident() or 0, ["insGuide", FONT, rng.randrange(6), None, rng.random() < 0.5]]
+        ops.append(first)
+        ops.append(rng.choice([["insGuide", FONT, rng.randrange(6), ident(), rng.random() < 0.5],
+                               ["rmGuide", FONT, rng.randrange(4)], ["fontRoundtrip"], ["clearGuides", FONT]]))
+        yield dict(ops=ops, standalone=False)
+
+
 def generate(rng, tier):
     n, maxlen = (2000, 25) if tier == "quick" else (12000, 60)
     for _ in range(n):
         yield gen_case(rng, maxlen)
     for c in gen_shape_cases(rng, tier):
+        yield c
+    for c in gen_stale_point_cases(rng, tier):
+        yield c
+    for c in gen_stranger_cases(rng, tier):
+        yield c
+    for c in gen_shallow_cases(rng, tier):
+        yield c
+    for c in gen_unread_font_cases(rng, tier):
         yield c
 
 
@@ -401,6 +678,9 @@ def neighbourhood(case, step, rng):
         if not case.get("standalone"):
             follow += [["tagged", 0, ["insContour", t, 0, None, [[2, None]]]], ["tagged", 1, ["insAnchor", t, 0, None, False]]]
     follow += [["rmGuide", FONT, 0], ["clearGuides", FONT], ["fontRoundtrip"]]
+    for i in POOL:
+        # is an identifier that should be in use still refused?  is one that should be free accepted?
+        follow += [["insAnchor", 0, 0, i, True], ["insGuide", FONT, 0, i, True]]
     for f in follow:
         yield dict(case, ops=prefix + [f])
     for f in follow[:8]:
@@ -479,6 +759,17 @@ def enc_op(op):
     if k == "reopen":
         return [A, [_enc_data(d) for d in op[1]], [opt(i) for i in op[2]],
                 Atom("none") if op[3] is None else [Atom("some"), [op[3][0], op[3][1]]]]
+    # the refused calls: which stranger / which invalid colour / which spelling is the implementation's business
+    if k == "rmAbsentPoint":
+        return [A, op[1], op[2]]
+    if k == "rmAbsent":
+        return [A, op[1], op[2], op[3]]
+    if k == "rmForeign":
+        return [A, op[1], op[2], op[3], op[4]]
+    if k in ("insAnchorBad", "insGuideBad"):
+        return [A, op[1], op[2], opt(op[3])]
+    if k in ("setAnchorsBad", "setGuidesBad"):
+        return [A, op[1], [opt(i) for i in op[2]]]
     raise ValueError(op)
 
 
@@ -541,6 +832,10 @@ class World(object):
         self.generated = 0
         self.gen_checks = []    # records for the generated-fresh clause of the oracle
         self.tagged_fired = 0
+        self.stale = []         # Point objects that used to be in a contour of the world (replaced, removed, cleared)
+        self.unread = None      # identifiers of the guidelines in fontinfo.plist while the re-opened font is unread
+        self.unread_first = 0   # guideline calls that were the first thing to touch an unread font
+        self.on_shallow = 0     # calls on a glyph whose contours were still shallow loaded
         if uses_disk and not standalone:
             self.disk()         # saved while the glyphs are still empty
 
@@ -590,8 +885,72 @@ class World(object):
             return c.anchors
         return c.guidelines
 
+    def shallow(self, t):
+        """glyph `t` still holds its contours in the lazily loaded (shallow) form: plain records, no Contour /
+        Point objects yet.  Read off the private attribute: every public way to look at contours deepens them."""
+        return t != FONT and bool(self.glyphs[t]._shallowLoadedContours)
+
+    def children_now(self, t, kind):
+        """the children after a call, for the limbo bookkeeping: the contours of a glyph that is (again) shallow
+        are new records, none of them is an object that existed before the call - and must not be deepened by
+        the harness"""
+        if kind == 0 and self.shallow(t):
+            return []
+        return self.children(t, kind)
+
     def base_name(self, b):
         return "G%d" % b if b != MISSING else "missing"
+
+    def font_unread(self):
+        """the re-opened font has not read fontinfo.plist (where its guidelines live) yet.  `_info` is read, not
+        `info`: asking for `font.info` / `font.guidelines` is what triggers the read."""
+        if self.unread is not None and self.font._info is not None:
+            self.unread = None
+        return self.unread is not None
+
+    def nchildren(self, t, kind):
+        """number of children, without making an unread font read its guidelines"""
+        if t == FONT and self.font_unread():
+            return len(self.unread)
+        return len(self.children(t, kind))
+
+    def removed_by(self, cont, t, kind, call):
+        """run `call` (a clear / an assignment) and move the objects it removed to the limbo.  On an unread font
+        the removed objects only exist once the call has made the font read them: they are collected from the
+        `Font.GuidelineWillBeDeleted` notifications."""
+        if t == FONT and self.font_unread():
+            self.unread_first += 1
+            col = _Collector()
+            self.keep.append(col)
+            cont.addObserver(col, "cb", "Font.GuidelineWillBeDeleted")
+            try:
+                call()
+            finally:
+                cont.removeObserver(col, "Font.GuidelineWillBeDeleted")
+                for o in col.objs:
+                    self.to_limbo(kind, o)
+            return
+        old = self.children(t, kind)
+        try:
+            call()
+        finally:
+            now = self.children_now(t, kind)
+            for o in reversed(old):
+                if not any(o is x for x in now):
+                    self.to_limbo(kind, o)
+
+    def note_stale(self, before, contour):
+        now = list(contour)
+        gone = [p for p in before if not any(p is q for q in now)]
+        self.stale = (self.stale + gone)[-STALE_CAP:]
+
+    def bad_dict(self, isA, ident, colour):
+        d = dict(x=1, y=2, name="n", color=BAD_COLORS[colour % len(BAD_COLORS)])
+        if not isA:
+            d["angle"] = 0
+        if ident is not None:
+            d["identifier"] = id2s(ident)
+        return d
 
     def disk(self):
         """the font lives in a UFO from the first disk op on"""
@@ -608,7 +967,13 @@ class World(object):
         """returns (S-expression observation, plain snapshot for the oracle).  The registries of ALL
         containers are read first: reading a glyph's contours completes a lazy load."""
         conts = [self.container(t) for t in range(NGLYPH + 1)]
-        regs_raw = [sorted(c.identifiers) for c in conts]
+        unread = self.font_unread()
+        regs_raw = [sorted(c.identifiers) for c in conts[:NGLYPH]]
+        if unread:
+            # not observed: what was written to fontinfo.plist (see ASSUMPTIONS)
+            regs_raw.append(sorted(id2s(i) for i in self.unread if i is not None))
+        else:
+            regs_raw.append(sorted(self.font.identifiers))
         regs = [sorted(s2id(x) for x in r) for r in regs_raw]
         out = []
         snap = []
@@ -616,13 +981,25 @@ class World(object):
             g = self.glyphs[t]
             carried = []
             contours = []
-            for c in g:
-                carried.append((id(c), c.identifier))
-                pts = []
-                for p in c:
-                    carried.append((id(p), p.identifier))
-                    pts.append([TYPES.index(p.segmentType), opt(s2id(p.identifier))])
-                contours.append([opt(s2id(c.identifier)), pts])
+            records = g._shallowLoadedContours
+            if records:
+                # lazily loaded contours are observed as the records they are: iterating the glyph would deepen them
+                # after every operation, and no history would ever run on a shallow glyph
+                for ci, d in enumerate(records):
+                    carried.append((("shallow", ci), d.get("identifier")))
+                    pts = []
+                    for pi, (args, kwargs) in enumerate(d["points"]):
+                        carried.append((("shallow", ci, pi), kwargs.get("identifier")))
+                        pts.append([TYPES.index(kwargs.get("segmentType")), opt(s2id(kwargs.get("identifier")))])
+                    contours.append([opt(s2id(d.get("identifier"))), pts])
+            else:
+                for c in g:
+                    carried.append((id(c), c.identifier))
+                    pts = []
+                    for p in c:
+                        carried.append((id(p), p.identifier))
+                        pts.append([TYPES.index(p.segmentType), opt(s2id(p.identifier))])
+                    contours.append([opt(s2id(c.identifier)), pts])
             comps = []
             for c in g.components:
                 carried.append((id(c), c.identifier))
@@ -636,14 +1013,19 @@ class World(object):
                 carried.append((id(a), a.identifier))
                 guides.append(opt(s2id(a.identifier)))
             out.append([[Atom("set")] + regs[t], contours, comps, anchors, guides])
-            snap.append(dict(reg=regs_raw[t], carried=carried, obj=id(g)))
+            snap.append(dict(reg=regs_raw[t], carried=carried, obj=id(g), unread=bool(records)))
         fg = []
         carried = []
-        for a in self.font.guidelines:
-            carried.append((id(a), a.identifier))
-            fg.append(opt(s2id(a.identifier)))
+        if unread:
+            for n, i in enumerate(self.unread):
+                carried.append((-1 - n, id2s(i)))
+                fg.append(opt(i))
+        else:
+            for a in self.font.guidelines:
+                carried.append((id(a), a.identifier))
+                fg.append(opt(s2id(a.identifier)))
         out.append([[Atom("set")] + regs[FONT], fg])
-        snap.append(dict(reg=regs_raw[FONT], carried=carried, obj=id(self.font)))
+        snap.append(dict(reg=regs_raw[FONT], carried=carried, obj=id(self.font), unread=unread))
         lim = []
         for c in self.limbo[0]:
             lim.append([opt(s2id(c.identifier)), [[TYPES.index(p.segmentType), opt(s2id(p.identifier))] for p in c]])
@@ -658,6 +1040,11 @@ class World(object):
     # -- operations ---------------------------------------------------------------------
 
     def do(self, op):
+        inner = op[2] if op[0] == "tagged" else op
+        t = inner[2] if inner[0] in ("rmAbsent", "rmForeign") else (inner[1] if len(inner) > 1 else None)
+        if isinstance(t, int) and t < NGLYPH and inner[0] not in ("limboSetId", "limboGenId", "limboAddPoint", "reopen") \
+                and self.shallow(t):
+            self.on_shallow += 1
         try:
             res = self._do(op)
             if res is None:
@@ -715,7 +1102,9 @@ class World(object):
                 b = self._base_index(obj.baseGlyph)
                 if b != MISSING and b <= op[1]:
                     return [Atom("err"), Atom("Cyclic")]    # would make the component graph cyclic
-            n = len(self.children(op[1], kind))
+            if op[1] == FONT and self.font_unread():
+                self.unread_first += 1
+            n = self.nchildren(op[1], kind)
             idx = op[2] % (n + 1)
             if kind == 0:
                 c.insertContour(idx, obj)
@@ -744,13 +1133,11 @@ class World(object):
         if k in ("clearContours", "clearComps", "clearAnchors", "clearGuides"):
             kind = ["clearContours", "clearComps", "clearAnchors", "clearGuides"].index(k)
             c = self.container(op[1])
-            ch = self.children(op[1], kind)
             if op[1] == FONT:
-                c.clearGuidelines()
+                call = c.clearGuidelines
             else:
-                [c.clearContours, c.clearComponents, c.clearAnchors, c.clearGuidelines][kind]()
-            for obj in reversed(ch):
-                self.to_limbo(kind, obj)
+                call = [c.clearContours, c.clearComponents, c.clearAnchors, c.clearGuidelines][kind]
+            self.removed_by(c, op[1], kind, call)
             return
         if k == "clearGlyph":
             g = self.glyphs[op[1]]
@@ -767,66 +1154,177 @@ class World(object):
             if ci is None:
                 return EMPTY
             c = g[ci]
-            if k == "insPoint":
-                c.insertPoint(op[3] % (len(c) + 1), self.new_point(op[4], op[5]))
-                return
-            if k == "addPoint":
-                c.addPoint(self.coords(), TYPES[op[3]], identifier=id2s(op[4]))
-                return
-            if k == "clearContour":
-                c.clear()
-                return
-            if k == "reverse":
-                # Contour.reverse reads self.clockwise before and after reversing; on a contour fontTools cannot
-                # draw that raises PenError or not depending on the representation cache (C03's subject).
-                # Probe with fontTools itself and keep such contours out of the domain.
-                from fontTools.pens.pointPen import PointToSegmentPen, ReverseContourPointPen
-                from fontTools.pens.basePen import NullPen
-                c.drawPoints(PointToSegmentPen(NullPen()))
-                c.drawPoints(ReverseContourPointPen(PointToSegmentPen(NullPen())))
-                c.reverse()
-                return
-            if k == "setContourId":
-                c.identifier = id2s(op[3])
-                return
-            if k == "genContourId":
-                self._gen(op[3])
-                before = set(g.identifiers)
-                had = c.identifier
-                v = c.generateIdentifier()
-                self.gen_checks.append(dict(had=had, value=v, before=before, now=set(g.identifiers), carried=c.identifier))
-                return [Atom("id"), opt(s2id(v))]
-            if k == "rmSegment":
-                segs = c.segments
-                si = self._pick(segs, op[3])
-                if si is None:
-                    return EMPTY
-                c.removeSegment(si, preserveCurve=bool(op[4]))
-                return
-            if k == "split":
-                segs = c.segments
-                si = self._pick(segs, op[3])
-                if si is None:
-                    return EMPTY
-                c.splitAndInsertPointAtSegmentAndT(si, 0.5)
-                return
-            pi = self._pick(list(c), op[3])
-            if pi is None:
+            before = list(c)
+            try:
+                return self._contour_op(k, op, g, c)
+            finally:
+                self.note_stale(before, c)
+        if k == "rmAbsentPoint":
+            g = self.glyphs[op[1]]
+            ci = self._pick(list(g), op[2])
+            if ci is None:
                 return EMPTY
-            if k == "rmPoint":
-                c.removePoint(c[pi])
-                return
-            if k == "setStart":
-                c.setStartPoint(pi)
-                return
-            if k == "genPointId":
-                self._gen(op[4])
-                p = c[pi]
-                before = set(g.identifiers)
-                had = p.identifier
-                v = c.generateIdentifierForPoint(p)
-                self.gen_checks.append(dict(had=had, value=v, before=before, now=set(g.identifiers), carried=p.identifier))
-                return [Atom("id"), opt(s2id(v))]
+            c = g[ci]
+            how, kk, ident = op[3], op[4], op[5]
+            inside = list(c)
+            if how == 0:
+                cands = list(self.stale)
+            elif how == 1:
+                cands = [q for c2 in g if c2 is not c for q in c2]
+            elif how == 2:
+                cands = [q for g2 in self.glyphs if g2 is not g for c2 in g2 for q in c2]
+            elif how == 3:
+                cands = [q for c2 in self.limbo[0] for q in c2]
+            else:
+                cands = []
+            cands = [q for q in cands if not any(q is x for x in inside)]
+            reg = g.identifiers
+            # a stranger whose identifier is in use in this glyph is the interesting one
+            cands = [q for q in cands if q.identifier is not None and q.identifier in reg] or cands
+            if cands:
+                stranger = cands[kk % len(cands)]
+            else:
+                stranger = D.Point((3, 4), segmentType="line", identifier=id2s(ident))
+                self.keep.append(stranger)
+            c.removePoint(stranger)
+            return
+        if k in ("rmAbsent", "rmForeign"):
+            kind, t = op[1], op[2]
+            if k == "rmAbsent":
+                src = list(self.limbo[kind])
+                r = op[3]
+            else:
+                if t == op[3]:
+                    return EMPTY
+                src = self.children(op[3], kind)
+                r = op[4]
+            if not src:
+                return EMPTY
+            c = self.container(t)
+            reg = c.identifiers
+
+            def ids_of(o):
+                return [o.identifier] + ([q.identifier for q in o] if kind == 0 else [])
+            # a stranger that carries an identifier in use in the target is the interesting one
+            src = [o for o in src if any(i is not None and i in reg for i in ids_of(o))] or src
+            stranger = src[r % len(src)]
+            if t == FONT:
+                c.removeGuideline(stranger)
+            else:
+                [c.removeContour, c.removeComponent, c.removeAnchor, c.removeGuideline][kind](stranger)
+            return
+        if k in ("insAnchorBad", "insGuideBad"):
+            cont = self.container(op[1])
+            isA = k == "insAnchorBad"
+            if op[1] == FONT and self.font_unread():
+                self.unread_first += 1
+            n = self.nchildren(op[1], 2 if isA else 3)
+            idx = op[2] % (n + 1)
+            d = self.bad_dict(isA, op[3], op[5])
+            spelling = op[4] % 3
+            if spelling == 1 and not (op[1] == FONT and self.font_unread()):
+                (cont.appendAnchor if isA else cont.appendGuideline)(d)
+            elif spelling == 2 and not (op[1] == FONT and self.font_unread()):
+                o = (cont.instantiateAnchor if isA else cont.instantiateGuideline)(d)
+                self.keep.append(o)
+            else:
+                (cont.insertAnchor if isA else cont.insertGuideline)(idx, d)
+            return
+        if k in ("setAnchorsBad", "setGuidesBad"):
+            cont = self.container(op[1])
+            isA = k == "setAnchorsBad"
+            dicts = []
+            for i in op[2]:
+                dicts.append(self._good_dict(isA, i))
+            dicts.append(self.bad_dict(isA, op[3], op[5]))
+            for i in op[4]:
+                dicts.append(self._good_dict(isA, i))
+
+            def assign():
+                if isA:
+                    cont.anchors = dicts
+                else:
+                    cont.guidelines = dicts
+            self.removed_by(cont, op[1], 2 if isA else 3, assign)
+            return
+        return self._do2(op)
+
+    def _good_dict(self, isA, ident):
+        d = dict(x=1, y=2, name="n")
+        if not isA:
+            d["angle"] = 0
+        if ident is not None:
+            d["identifier"] = id2s(ident)
+        return d
+
+    def _contour_op(self, k, op, g, c):
+        EMPTY = [Atom("err"), Atom("Empty")]
+        if k == "insPoint":
+            c.insertPoint(op[3] % (len(c) + 1), self.new_point(op[4], op[5]))
+            return
+        if k == "addPoint":
+            c.addPoint(self.coords(), TYPES[op[3]], identifier=id2s(op[4]))
+            return
+        if k == "clearContour":
+            c.clear()
+            return
+        if k == "reverse":
+            # Contour.reverse reads self.clockwise before and after reversing; on a contour fontTools cannot
+            # draw that raises PenError or not depending on the representation cache (C03's subject).
+            # Probe with fontTools itself and keep such contours out of the domain.
+            from fontTools.pens.pointPen import PointToSegmentPen, ReverseContourPointPen
+            from fontTools.pens.basePen import NullPen
+            c.drawPoints(PointToSegmentPen(NullPen()))
+            c.drawPoints(ReverseContourPointPen(PointToSegmentPen(NullPen())))
+            c.reverse()
+            return
+        if k == "setContourId":
+            c.identifier = id2s(op[3])
+            return
+        if k == "genContourId":
+            self._gen(op[3])
+            before = set(g.identifiers)
+            had = c.identifier
+            v = c.generateIdentifier()
+            self.gen_checks.append(dict(had=had, value=v, before=before, now=set(g.identifiers), carried=c.identifier))
+            return [Atom("id"), opt(s2id(v))]
+        if k == "rmSegment":
+            segs = c.segments
+            si = self._pick(segs, op[3])
+            if si is None:
+                return EMPTY
+            c.removeSegment(si, preserveCurve=bool(op[4]))
+            return
+        if k == "split":
+            segs = c.segments
+            si = self._pick(segs, op[3])
+            if si is None:
+                return EMPTY
+            c.splitAndInsertPointAtSegmentAndT(si, 0.5)
+            return
+        pi = self._pick(list(c), op[3])
+        if pi is None:
+            return EMPTY
+        if k == "rmPoint":
+            c.removePoint(c[pi])
+            return
+        if k == "setStart":
+            c.setStartPoint(pi)
+            return
+        if k == "genPointId":
+            self._gen(op[4])
+            p = c[pi]
+            before = set(g.identifiers)
+            had = p.identifier
+            v = c.generateIdentifierForPoint(p)
+            self.gen_checks.append(dict(had=had, value=v, before=before, now=set(g.identifiers), carried=p.identifier))
+            return [Atom("id"), opt(s2id(v))]
+        raise ValueError(op)
+
+    def _do2(self, op):
+        k = op[0]
+        D = self.defcon
+        EMPTY = [Atom("err"), Atom("Empty")]
         if k == "insComp":
             g = self.glyphs[op[1]]
             c = D.Component()
@@ -872,8 +1370,9 @@ class World(object):
         if k in ("insAnchor", "insGuide"):
             cont = self.container(op[1])
             isA = k == "insAnchor"
-            ch = self.children(op[1], 2 if isA else 3)
-            idx = op[2] % (len(ch) + 1)
+            if op[1] == FONT and self.font_unread():
+                self.unread_first += 1
+            idx = op[2] % (self.nchildren(op[1], 2 if isA else 3) + 1)
             if op[4]:
                 d = dict(x=1, y=2, name="n")
                 if not isA:
@@ -895,25 +1394,14 @@ class World(object):
         if k in ("setAnchors", "setGuides"):
             cont = self.container(op[1])
             isA = k == "setAnchors"
-            old = self.children(op[1], 2 if isA else 3)
-            dicts = []
-            for i in op[2]:
-                d = dict(x=1, y=2, name="n")
-                if not isA:
-                    d["angle"] = 0
-                if i is not None:
-                    d["identifier"] = id2s(i)
-                dicts.append(d)
-            try:
+            dicts = [self._good_dict(isA, i) for i in op[2]]
+
+            def assign():
                 if isA:
                     cont.anchors = dicts
                 else:
                     cont.guidelines = dicts
-            finally:
-                now = self.children(op[1], 2 if isA else 3)
-                for o in reversed(old):
-                    if not any(o is x for x in now):
-                        self.to_limbo(2 if isA else 3, o)
+            self.removed_by(cont, op[1], 2 if isA else 3, assign)
             return
         if k in ("limboSetId", "limboGenId", "limboAddPoint"):
             kind = op[1] if k != "limboAddPoint" else 0
@@ -958,7 +1446,7 @@ class World(object):
                 g.copyDataFromGlyph(self.glyphs[op[2]])
             finally:
                 for kind, old in ((2, olds[0]), (3, olds[1])):
-                    now = self.children(op[1], kind)
+                    now = self.children_now(op[1], kind)
                     for o in reversed(old):
                         if not any(o is x for x in now):
                             self.to_limbo(kind, o)
@@ -981,7 +1469,7 @@ class World(object):
                 g.setDataFromSerialization(data)
             finally:
                 for kind in range(4):
-                    now = self.children(op[1], kind)
+                    now = self.children_now(op[1], kind)
                     for o in reversed(chs[kind]):
                         if not any(o is x for x in now):
                             self.to_limbo(kind, o)
@@ -1006,6 +1494,8 @@ class World(object):
                 o = cont.instantiateAnchor(d)
             else:
                 d["angle"] = 0
+                if op[1] == FONT and self.font_unread():
+                    self.font.guidelines        # see ASSUMPTIONS (F70)
                 o = cont.instantiateGuideline(d)
             self.keep.append(o)
             return
@@ -1020,7 +1510,7 @@ class World(object):
                 self.font.layers.defaultLayer.reloadGlyphs(["G%d" % t])
             finally:
                 for kind in range(4):
-                    now = self.children(t, kind)
+                    now = self.children_now(t, kind)
                     for o in reversed(chs[kind]):
                         if not any(o is x for x in now):
                             self.to_limbo(kind, o)
@@ -1037,7 +1527,13 @@ class World(object):
             self.path = path
             self.glyphs = [self.font["G%d" % i] for i in range(NGLYPH)]
             self.keep.extend(self.glyphs)
-            self.font.guidelines  # the font's guidelines live in fontinfo.plist, read on first access
+            if len(op) > 4 and op[4]:
+                # the font's guidelines live in fontinfo.plist, read on first access: leave them unread, the
+                # next guideline call of the history is the first thing that touches them
+                self.unread = list(op[2])
+            else:
+                self.unread = None
+                self.font.guidelines
             if op[3] is not None:
                 # an anchor appended while the contours are still lazily (shallow) loaded
                 t, ident = op[3]
@@ -1104,7 +1600,7 @@ IDENT_OPS = set("""insContour reinsContour rmContour clearContours insPoint addP
 setContourId genContourId genPointId insComp reinsComp rmComp clearComps setCompId genCompId decompose decomposeAll
 insAnchor reinsAnchor rmAnchor clearAnchors setAnchorId genAnchorId setAnchors insGuide reinsGuide rmGuide clearGuides
 setGuideId genGuideId setGuides clearGlyph draw drawFrom copyFrom insertGlyph roundtrip deserializeFrom fontRoundtrip
-reload reopen reverse""".split())
+reload reopen reverse setAnchorsBad setGuidesBad""".split())
 
 # operations that introduce ONE object / ONE identifier: a rejection must leave every container unchanged
 PRIMITIVE = set("""insContour reinsContour insPoint addPoint setContourId genContourId genPointId insComp reinsComp
@@ -1119,6 +1615,8 @@ LEAKY = set("draw drawFrom copyFrom deserializeFrom reload".split())
 
 def run_impl(case):
     warnings.filterwarnings("ignore")
+    if case.get("scripted"):
+        return run_scripted(case)
     w = World(bool(case.get("standalone")), any(op[0] in ("reload", "reopen") for op in case["ops"]))
     outs = []
     trace = []
@@ -1132,6 +1630,8 @@ def run_impl(case):
             outs.append([res, obs])
             trace.append(dict(op=effective(op), res=res, before=before, after=snap, gen=w.gen_checks[n_gen:],
                               tagged=op[0] == "tagged"))
+        unread_first = w.unread_first
+        on_shallow = w.on_shallow
     finally:
         w.close()
     viol = oracle(case, trace)
@@ -1153,9 +1653,17 @@ def run_impl(case):
                 generated += 1
                 kinds["generated"] = kinds.get("generated", 0) + 1
     kinds["len"] = len(case["ops"])
+    if unread_first:
+        kinds["first-guideline-call-on-unread-font"] = unread_first
+    if on_shallow:
+        kinds["calls-on-shallow-glyph"] = on_shallow
+    refused = sum(1 for tr in trace if tr["op"][0] in REFUSED and isinstance(tr["res"], list) and tr["res"]
+                  and tr["res"][0] == "err" and str(tr["res"][1]) != "Empty")
+    if refused:
+        kinds["refused-calls"] = refused
     kinds["cases.standalone" if case.get("standalone") else "cases.in_font"] = 1
     kinds["registry_changing_ops"] = changed
-    nontrivial = changed > 0 and (rejected > 0 or generated > 0)
+    nontrivial = changed > 0 and (rejected > 0 or generated > 0 or refused > 0)
     return dict(out=outs, viol=viol, info=dict(nontrivial=nontrivial, stats=kinds))
 
 
@@ -1245,8 +1753,12 @@ def oracle(case, trace):
                     return viol
         # (3) a rejected single-object operation leaves every container unchanged
         if failed and kind in PRIMITIVE:
-            b = [(s["reg"], s["carried"]) for s in tr["before"]]
-            a = [(s["reg"], s["carried"]) for s in tr["after"]]
+            def view(s, plain):
+                return (s["reg"], [i for (_, i) in s["carried"]] if plain else s["carried"])
+            # a font that was unread before or after the call has no object identities to compare
+            plain = [bool(x.get("unread") or y.get("unread")) for x, y in zip(tr["before"], tr["after"])]
+            b = [view(s, pl) for s, pl in zip(tr["before"], plain)]
+            a = [view(s, pl) for s, pl in zip(tr["after"], plain)]
             if a != b and errname in ("AssertionError",):
                 hit("reject-unchanged", kind, error=errname)
                 return viol
@@ -1289,6 +1801,55 @@ WITNESSES = {
         dict(ops=[["instAnchor", 0, 2],
                   ["reload", 0, dict(contours=[_LEAKING_CONTOUR], comps=[], anchors=[], guides=[])]], standalone=False),
 }
+
+
+SCRIPTED_UNREAD = "instantiate-guideline-on-unread-font"
+WITNESSES["C10/registry-exact/instantiate-on-unread-font"] = dict(ops=[], standalone=False, scripted=SCRIPTED_UNREAD)
+
+
+def run_scripted(case):
+    """scenarios outside M-Ident (the model reads a re-opened font at once): the direct oracle alone, on the real
+    code.  `instantiate-guideline-on-unread-font` (F70): Font.instantiateGuideline(dict) as the first call on a
+    freshly opened font checks the identifier against the registry of a font that has not read its guidelines."""
+    import defcon
+    assert case["scripted"] == SCRIPTED_UNREAD, case["scripted"]
+    viol = []
+    tmp = tempfile.mkdtemp(prefix="c10s_")
+    keep = []
+    try:
+        path = os.path.join(tmp, "s.ufo")
+        src = defcon.Font()
+        stored = [id2s(0), id2s(1), None, id2s(2)]
+        for i in stored:
+            d = dict(x=1, y=2, angle=0, name="n")
+            if i is not None:
+                d["identifier"] = i
+            src.appendGuideline(d)
+        src.save(path)
+        keep.append(src)
+        font = defcon.Font(path)
+        keep.append(font)
+        try:
+            keep.append(font.instantiateGuideline(dict(x=5, y=5, angle=0, name="dup", identifier=id2s(1))))
+            res = Atom("ok")
+        except AssertionError as e:
+            res = _err(e)
+        try:
+            now = font.guidelines
+            read_error = None
+        except AssertionError as e:
+            read_error = type(e).__name__
+            now = font.guidelines
+        carried = [g.identifier for g in now]
+        reg = sorted(font.identifiers)
+        lost = [i for i in stored if i is not None and i not in carried]
+        if read_error is not None or lost or len(carried) != len(stored):
+            viol.append(dict(clause="C10/registry-exact", signature="C10/registry-exact/instantiate-on-unread-font",
+                             step=0, op=["instantiateGuideline", FONT, 1], result=str(res), read_error=read_error,
+                             stored=stored, carried=carried, registry=reg, lost=lost))
+    finally:
+        shutil.rmtree(tmp, ignore_errors=True)
+    return dict(out=[], viol=viol, info=dict(nontrivial=False, stats={"cases.scripted": 1}))
 
 
 def replay_known(entry):
